@@ -7,13 +7,21 @@ import CaddyModel.C19.Model
 
 namespace CaddyModel.C19
 
-def asciiOnly (b : Bytes) : Bool := b.all (· < 128)
+/-- UTF-8 → symbols (see Model.lean): ASCII bytes stay; `ſ` = C5 BF ↦ 128, `K` = E2 84 AA ↦ 129,
+    `É` = C3 89 ↦ 130, `é` = C3 A9 ↦ 131; anything else non-ASCII is outside the alphabet -/
+def decodeSyms : Bytes → Option Bytes
+  | [] => some []
+  | 0xC5 :: 0xBF :: rest => (decodeSyms rest).map (symLongS :: ·)
+  | 0xE2 :: 0x84 :: 0xAA :: rest => (decodeSyms rest).map (symKelvin :: ·)
+  | 0xC3 :: 0x89 :: rest => (decodeSyms rest).map (symEacuteUp :: ·)
+  | 0xC3 :: 0xA9 :: rest => (decodeSyms rest).map (symEacute :: ·)
+  | b :: rest => if b < 128 then (decodeSyms rest).map (b :: ·) else none
 
 def noBraces (b : Bytes) : Bool := b.all (fun c => c != 123 && c != 125)
 
 /-- a hex field: never the empty token (`-` is the empty string) -/
 def hexField (s : String) : Option Bytes :=
-  if s == "" then none else (Hex.decode s).bind fun b => if asciiOnly b then some b else none
+  if s == "" then none else (Hex.decode s).bind decodeSyms
 
 /-- a client-auth shape letter: `some true` = an active shape (mode / CA / trusted leaf / verifier
     modules, alone or combined), `some false` = the empty block `i` -/
